@@ -163,8 +163,21 @@ contract(CMD + "StateResponse.__init__",
                   "outdoor_unknown_iff_sentinel": "(self.outdoor_temperature is None) == (payload[12] == 0xFF)"},
          raises={"builtins.IndexError": {"when": "len(payload) < 16"}})
 
+opaque("accepts", rtype="bool")
+
+
+def accepts(frame):
+    """Response.construct(frame) returns a response (definition; natively: try it)"""
+    try:
+        Response.construct(bytes(frame))
+        return True
+    except Exception:
+        return False
+
+
 contract(CMD + "Response.construct",
          params={"frame": "bytes"},
+         defines_on_return="accepts(frame)",
          calls_inline=[CMD + "StateResponse.__init__", CMD + "StateResponse._parse", CMD + "StateResponse._parse_temperature"],
          rtype="union:obj:" + CMD + "StateResponse|obj:" + CMD + "CapabilitiesResponse|obj:" + CMD + "PropertiesResponse|obj:"
                + CMD + "EnergyUsageResponse|obj:" + CMD + "HumidityResponse|obj:" + CMD + "Response",
